@@ -1,6 +1,7 @@
 package main
 
 import (
+	"go/constant"
 	"go/token"
 	"go/types"
 	"strings"
@@ -364,14 +365,45 @@ func (k *core) checkCbLoopDrains(rule string) {
 	c := k.c
 	f := k.cbLoop
 	n := 0
-	for _, r := range returnsOf(f) {
-		n++
-		ok := false
-		for _, ec := range condsDominating(r.Block()) {
-			if ec.Val {
+	// emptyKnown: the block is only entered after a non-blocking receive found the queue empty (or the queue was
+	// closed and drained); through a boolean "there was an event" flag joined from constants (a fetch helper folded
+	// back in: `return ev, true` / `return nil, false`) the question moves to the edges that carry the exit value
+	var emptyKnown func(blk *ssa.BasicBlock, depth int) bool
+	emptyKnown = func(blk *ssa.BasicBlock, depth int) bool {
+		for _, ec := range condsDominating(blk) {
+			cond, val := ec.Cond, ec.Val
+			for {
+				if u, isNot := cond.(*ssa.UnOp); isNot && u.Op == token.NOT {
+					cond, val = u.X, !val
+					continue
+				}
+				break
+			}
+			if ph, isPhi := cond.(*ssa.Phi); isPhi && depth < 3 {
+				all, some := true, false
+				for ei, e := range ph.Edges {
+					cst, isC := e.(*ssa.Const)
+					if !isC || cst.Value == nil || cst.Value.Kind() != constant.Bool {
+						all = false
+						break
+					}
+					if constant.BoolVal(cst.Value) != val {
+						continue
+					}
+					some = true
+					if !emptyKnown(ph.Block().Preds[ei], depth+1) {
+						all = false
+					}
+				}
+				if all && some {
+					return true
+				}
 				continue
 			}
-			switch x := ec.Cond.(type) {
+			if val {
+				continue
+			}
+			switch x := cond.(type) {
 			case *ssa.BinOp:
 				if x.Op != token.EQL {
 					continue
@@ -388,15 +420,20 @@ func (k *core) checkCbLoopDrains(rule string) {
 				// the select's only way out besides this state must be `default`
 				st := sel.States[idx]
 				if st.Dir == types.RecvOnly && isEventChan(st.Chan.Type()) && len(sel.States) == 1 {
-					ok = true
+					return true
 				}
 			case *ssa.Extract:
 				// v, ok := <-ch  (range over the queue): exit when !ok
 				if u, oku := x.Tuple.(*ssa.UnOp); oku && u.Op == token.ARROW && u.CommaOk && x.Index == 1 && isEventChan(u.X.Type()) {
-					ok = true
+					return true
 				}
 			}
 		}
+		return false
+	}
+	for _, r := range returnsOf(f) {
+		n++
+		ok := emptyKnown(r.Block(), 0)
 		// `for ev := range ch` lowers to a Next-less receive: t = <-ch,ok ; if ok
 		c.check(ok, rule, relName(f)+"#return", r.Pos(),
 			"the callback loop returns only after a non-blocking receive found the queue empty (or the queue was closed and drained)",
